@@ -255,7 +255,8 @@ def decode_input_from_vals(vals: List[bytes], L: int) -> Optional[bytes]:
 def run_and_judge(prop: str, tier: str, seed: int, items: List[KItem], info: dict, out: Outcome,
                   replay_native: Callable, extra_arms: Callable[[List[KItem]], str] = None,
                   own_prefixes: Tuple[str, ...] = (), default_checks_are_mine=False,
-                  extract: Callable = None, harness_timeout=None, max_replays=10, runner_ops: str = '') -> dict:
+                  extract: Callable = None, harness_timeout=None, max_replays=10, runner_ops: str = '',
+                  inner_fn: Callable = None) -> dict:
     """run the harnesses; attribute failed checks to this property; replay; fill `out`;
     returns the coverage dict for the evidence file"""
     t0 = time.time()
@@ -368,7 +369,8 @@ def run_and_judge(prop: str, tier: str, seed: int, items: List[KItem], info: dic
                 same_mod = [x for x in items if x.mod == it.mod]
                 types = sorted({x.type for x in same_mod})
                 runners[it.mod] = NativeRunner(it.unit.text, types, runner_ops,
-                                               extra_arms(same_mod) if extra_arms else '')
+                                               extra_arms(same_mod) if extra_arms else '',
+                                               inner_fn(same_mod) if inner_fn else '')
             try:
                 ok, obs = replay_native(runners[it.mod], it, inp)
             except Exception as e:  # noqa
